@@ -260,8 +260,8 @@ def gen(rng, n, tier):
         o, _ = closure(lim, list(range(6)))
         ops += o
     if tier == "thorough":
-        for lim in (1, 2, 3, 4):
-            o, _ = closure(lim, list(range(9)))
+        for lim in (1, 2, 3, 4, 5):
+            o, _ = closure(lim, list(range(10)))
             ops += o
     target = len(ops) + n
     bases = [0, 0, 0, 1000, PN_MAX - 15]
